@@ -29,4 +29,8 @@ pub struct Plan {
     pub evictions: Vec<(u8, u32, u8)>,
     /// Observer: storage fault (tx, at_call) injected while single-stepping.
     pub observer_faults: Vec<(u8, u32)>,
+    /// Observer: one interpreter instance executes all transactions of the scenario (as an
+    /// embedder's client does) instead of a fresh instance per transaction.
+    #[serde(default)]
+    pub reuse_vm: bool,
 }
